@@ -13,6 +13,7 @@ import (
 	authtypes "github.com/cosmos/cosmos-sdk/x/auth/types"
 
 	mtypes "github.com/MinterTeam/mhub2/module/x/mhub2/types"
+	otypes "github.com/MinterTeam/mhub2/module/x/oracle/types"
 
 	"verifharness/pbt"
 	"verifharness/sim"
@@ -655,6 +656,60 @@ func (it *Interp) step(i int, op *Op) {
 	case "tick":
 		w.Height += uint64(op.N)
 
+	case "oprice":
+		pre := it.preSnap()
+		epoch := it.H.O.GetCurrentEpoch(it.H.Ctx())
+		names := []string{"eth", "ethereum/gas", "bnb", "bsc/gas"}
+		names = append(names, it.Denoms...)
+		if op.N == 3 {
+			names = append(names, "extra/one", "extra/two")
+		}
+		for vi, v := range it.H.Staking.Vals {
+			if !v.Bonded && op.N != 2 {
+				continue
+			}
+			ps := &otypes.Prices{}
+			for ni, n := range names {
+				val := sdk.NewDec(int64(100 + 10*ni)).Add(sdk.NewDecWithPrec(int64(vi*op.R), 2))
+				ps.List = append(ps.List, &otypes.Price{Name: n, Value: val})
+			}
+			if op.N == 1 && vi == 0 {
+				ps.List = ps.List[1:] // a required price is missing: the claim must be refused
+			}
+			res := it.H.Deliver(&otypes.MsgPriceClaim{Epoch: epoch, Prices: ps, Orchestrator: sdk.AccAddress(sim.ValAddr(vi)).String()})
+			if res.Err == nil {
+				it.Stats["oprice-ok"]++
+			}
+		}
+		post := it.Snap()
+		it.cur = post
+		it.notify(&StepInfo{Idx: i, Op: op, Phase: "op", Pre: pre, Post: post, Note: "oracle price claims"})
+
+	case "oholders":
+		pre := it.preSnap()
+		epoch := it.H.O.GetCurrentEpoch(it.H.Ctx())
+		for vi, v := range it.H.Staking.Vals {
+			if !v.Bonded {
+				continue
+			}
+			hs := &otypes.Holders{}
+			variant := 0
+			if op.N > 0 && vi%2 == 1 {
+				variant = 1
+			}
+			for u := 0; u < 3; u++ {
+				val := sdk.NewIntFromBigInt(new(big.Int).Mul(big.NewInt(int64((u+1)*(op.R+1+variant))), pow10(18)))
+				hs.List = append(hs.List, &otypes.Holder{Address: sim.ExtUser(u).Hex()[2:], Value: val})
+			}
+			res := it.H.Deliver(&otypes.MsgHoldersClaim{Epoch: epoch, Holders: hs, Orchestrator: sdk.AccAddress(sim.ValAddr(vi)).String()})
+			if res.Err == nil {
+				it.Stats["oholders-ok"]++
+			}
+		}
+		post := it.Snap()
+		it.cur = post
+		it.notify(&StepInfo{Idx: i, Op: op, Phase: "op", Pre: pre, Post: post, Note: "oracle holders claims"})
+
 	case "hostile":
 		if ev := it.hostileEvent(chain, op); ev != nil {
 			if err := ev.Validate(mtypes.ChainID(chain)); err == nil {
@@ -688,7 +743,6 @@ func (it *Interp) step(i int, op *Op) {
 		it.relayAll(i, op, chain, op.N)
 	}
 }
-
 
 // NumHostile is the number of hostile event variants.
 const NumHostile = 16
